@@ -48,7 +48,8 @@ def run_case(rng, idx, tier):
     viol = []; worst = {}; inconcl = []
     ev = {"judged": 0, "in_band": 0}
     band = prims.in_band(p1, p2)
-    rec = {"cls": "%s|%s" % (name, "structured" if sc.structured else "generic"), "nontrivial": sc.structured,
+    rec = {"cls": "%s|%s%s" % (name, "structured" if sc.structured else "generic", "|contact" if sc.contact else ""),
+           "nontrivial": sc.structured or sc.contact,
            "sig": repr((name, p1.describe(), p2.describe())),
            "sample": {"fn": name, "kwargs": kwargs, "p1": p1.describe(), "p2": p2.describe()}}
     try:
@@ -81,7 +82,8 @@ def run_case(rng, idx, tier):
         if name == "line_segment_to_circle":
             q = np.asarray(res[1], float)
             endpoint = bool(np.array_equal(q, p1.args[0]) or np.array_equal(q, p1.args[1]))
-        viol.append({"key": {"fn": name, "kind": "not-the-minimum", "returned_segment_point_is_endpoint": endpoint},
+        viol.append({"key": {"fn": name, "kind": "not-the-minimum", "returned_segment_point_is_endpoint": endpoint,
+                             "sliver_triangle": prims.has_sliver(p1, p2)},
                      "err": float(over),
                      "msg": "%s returned d=%.9g but a pair of points at distance %.9g exists (excess %.3g*L, reference: %s)" % (
                          name, d, dref, over, how)})
